@@ -6,6 +6,7 @@ import TsVerif.C16.Collapse
 import TsVerif.C16.DeriveExecLemmas
 import TsVerif.C16.Inline
 import TsVerif.C16.Lfp
+import TsVerif.C16.DriverTie
 /-!
 # C16 — node-types.json, symbol tables and look-ahead sets are sound for every tree
 
@@ -16,22 +17,59 @@ non-empty and non-multiple sets hold at most one node.  Symbol and field names r
 their ids, and the look-ahead iterator of a parse state lists every token the parser can accept in
 that state (merged states may list more, never fewer)."
 
-Clause map
-* "the look-ahead iterator of a parse state lists every token the parser can accept" —
-  the parser accepts `sym` in state `s` iff `ts_language_lookup s sym ≠ 0` (that is the table the
-  parser itself reads); `lookahead_enumerates`: for EVERY well-formed table layout (`tableWF`,
-  decidable, evaluated on every real dump) and every state, large or small, iterating the port of
-  `ts_lookahead_iterator__next` from `ts_language_lookaheads s` yields exactly the symbols with
-  `lookup s sym ≠ 0`, each once (`lookahead_perm_nonzero`), with the table value the parser would
-  read (`lookahead_values`), and a finished iterator stays finished (`lookahead_done_stays`).
-  Tie: the ports are compared with the real functions for ALL states × ALL symbols of every
-  language; the accepted look-aheads of real parses are judged against the real iterator.
-* "each node type is listed … allowed type (through supertypes) … required … multiple" —
-  `Conforms` (declarative) and `conforms_iff` (the executable judge decides exactly `Conforms`,
-  for every file and every tree; the supertype saturation provably converges, `closure_always_converges`).
-* "Symbol and field names round-trip through their ids" — `name_roundtrip` (soundness of the
-  decidable checks `namesRoundTrip`, `pubConsistent` evaluated on every real symbol table) and
-  `field_roundtrip` (all tables with pairwise distinct field names).
+Clause map — each phrase of the property text → theorems, with the status
+  [P]  proved, for ALL tables / files / trees / grammars of the model (no hypothesis)
+  [Ph] proved under a DECIDABLE hypothesis that the check evaluates on every real dump / file / grammar
+  [T]  tie: a code-shaped port is compared with the real function on all states × symbols × names of each language
+  [J]  judged only: a Lean judge on real outputs, no ∀-theorem about the implementation
+
+1. "Every error-free tree a generated parser produces conforms to the node-types file generated with it"
+   [P]  `conforms_iff` — the executable judge decides exactly the declarative `Conforms`, for every file and tree
+        (no well-formedness hypothesis: `closure_always_converges`).
+   [J]  every error-free tree of the sampled documents of every generated language is judged (`checkConforms`).
+   [Ph] for ALL trees of a grammar, not only sampled ones: `real_file_admits` (hypothesis `closedB G I = true`, evaluated with
+        `I` = the REAL node-types.json and `G` = the grammar's flattened productions after the verified inlining rounds —
+        obligation `model:real-node-types-are-closed`) ⇒ every children sequence any rule can derive is admitted;
+        `derive_sound_partial` / `derive_entry_fields_partial` (hypothesis `Closed`), `inline_round` + `inlined_file_admits`
+        (process_inlines as substitution), `extras_transparent` + `derive_entry_fields_extras` (extras anywhere),
+        `lfp_closed` / `lfp_least` / `lfp_admits` (the iteration reaches the least closed information within explicit fuel).
+        PARTIAL: `G` is produced by the explorer's flattening (c16_flatten.rs), tied to the real prepare_grammar only by the
+        production-shape correspondence [T] (child count + own field per child index of every named rule = real reduce
+        actions); aliases per index, precedence and the repeat encoding are not compared.
+2. "each node type is listed"
+   [P]  part of `Conforms` (`NodeOK`: an entry with the node's (type, named) exists and is not a supertype entry).
+   [Ph] `kinds_listed_sound` — on the level of the LANGUAGE: every symbol a node can carry (visible, not an inlined rule's
+        name) has an entry, every supertype symbol a supertype entry; hypothesis `kindsListed`, evaluated on every real
+        (symbol table, node-types file) pair.  [J] per node: kind id ↔ kind name ↔ id round trip.
+3. "each child appears under the field (or the unnamed children set) the file allows with an allowed type (through supertypes)"
+   [P]  `ChildOK` in `Conforms`; `allowed_iff_reach` (the saturation through `subtypes` computes exactly `Reach`, any depth);
+        `collapse_preserves_admitted` (the generator's supertype collapsing does not change what a list admits);
+        model level: clauses 1 and 6 of `Admits`.  [J] `subtypes` lists = the runtime's supertype map (`subtypesAgree`).
+4. "required sets are non-empty and non-multiple sets hold at most one node"
+   [P]  `QuantOK` in `Conforms` (fields and `children`); model level: clauses 2–5, 7, 8 of `Admits`
+        (`childMax/fieldMax/plainMax < 2` bound the count, `…Min` are lower bounds).
+5. "Symbol and field names round-trip through their ids"
+   [Ph] `name_roundtrip` — hypothesis `namesRoundTrip ∧ pubConsistent` (decidable, evaluated on every real symbol table over
+        the port `symbolForName`): every symbol with a node kind is found again from its public name and namedness.
+   [Ph] `field_roundtrip` — hypothesis: pairwise distinct field names (decidable, evaluated on every real table).
+   [P]  `symbol_type_flags` — the port of `ts_language_symbol_type` in terms of the metadata.
+   [T]  `symbolForName`, `fieldIdForName`, `symbolType` vs the real functions for every symbol / field / probe name
+        (C API and Rust binding).  [J] id → name → id for every id through the real functions; out-of-range ids.
+6. "the look-ahead iterator of a parse state lists every token the parser can accept in that state (merged states may
+   list more, never fewer)"
+   [Ph] `lookahead_enumerates`, `lookahead_perm_nonzero`, `lookahead_values`, `lookaheadList_run` — hypothesis `tableWF`
+        (decidable, evaluated on every real dump): for every state, large or small, iterating the port of
+        `ts_lookahead_iterator__next` yields exactly the symbols with `ts_language_lookup ≠ 0`, each once, with the
+        parser's own table value.  [P] `lookahead_done_stays`.
+   [Ph] `lookahead_covers_driver` / `lookahead_covers_steps` — "the parser" = the code-shaped LR driver of C03 on the
+        decoded table; hypothesis `actsAgree` (decoded cells = non-zero raw cells; evaluated on every dump): in EVERY
+        configuration in which the driver shifts, reduces or accepts, its look-ahead is listed by the iterator of the
+        state on top of the stack — so for every tree the driver accepts, every (state, look-ahead) on the way.
+        `lookahead_yields_have_actions` (hypothesis `cellsHaveActions`): conversely every listed terminal has actions.
+   [T]  ports of `ts_language_lookup`, `ts_language_lookaheads`, `ts_lookahead_iterator__next` vs the real functions for
+        ALL states × ALL symbols (C) and the Rust iterator.  [J] every (state, look-ahead) the REAL parser acted on in the
+        sampled parses (parse log) is listed by the REAL iterator.
+   NOT proved here: that the real `ts_parser__advance` is the C03 driver (that tie belongs to the C03 check).
 
 Boundary conventions fixed here (the English leaves them open): extras may appear anywhere and
 are exempt from the child-membership and quantity clauses but must themselves conform; an
@@ -88,6 +126,45 @@ theorem lookahead_perm_nonzero (L : Lang) (hwf : tableWF L = true) (s : Nat) (hs
   intro sym
   rw [hmem]
   simp [nonzeroSyms]
+
+/-- `lookahead_covers_driver`: "lists every token the parser can accept in that state", with the
+parser = the code-shaped LR driver of C03 reading the decoded table `tbl`.  For every raw table layout
+`L` that is well formed and every decoded table whose non-empty cells are non-zero cells of `L`
+(`actsAgree`, decidable, evaluated on every real dump): in EVERY configuration in which the driver has
+an effective action on its look-ahead — the next token, or the end symbol — that look-ahead is listed
+by the iterator of the state on top of the stack.  Never fewer; merged states may list more. -/
+theorem lookahead_covers_driver (L : Lang) (tbl : C03.Table) (hwf : tableWF L = true) (hag : actsAgree L tbl = true)
+    (c : C03.Conf) (hact : driverActs tbl (consulted tbl c).1 (consulted tbl c).2) :
+    (consulted tbl c).2 ∈ lookaheadSyms L (consulted tbl c).1 := by
+  have hne : tbl.actions (consulted tbl c).1 (consulted tbl c).2 ≠ [] := by
+    intro h0
+    apply hact
+    unfold C03.effective
+    rw [h0]; rfl
+  obtain ⟨h1, h2, h3⟩ := actsAgree_sound L tbl hag _ _ hne
+  exact ((lookahead_enumerates L hwf _ h1).2 _).2 ⟨h2, h3⟩
+
+/-- in particular at every step of every run, and at the accepting step: for every tree the driver
+accepts, every (state, look-ahead) pair it went through is listed -/
+theorem lookahead_covers_steps (L : Lang) (tbl : C03.Table) (hwf : tableWF L = true) (hag : actsAgree L tbl = true)
+    (c : C03.Conf) (h : (∃ c', C03.step tbl c = .inl c') ∨ (∃ t, C03.step tbl c = .inr (.accepted t))) :
+    (consulted tbl c).2 ∈ lookaheadSyms L (consulted tbl c).1 := by
+  rcases h with ⟨c', h⟩ | ⟨t, h⟩
+  · exact lookahead_covers_driver L tbl hwf hag c (step_inl_acts tbl c c' h)
+  · exact lookahead_covers_driver L tbl hwf hag c (step_accept_acts tbl c t h)
+
+/-- `lookahead_yields_have_actions`: conversely, every TERMINAL the iterator yields in a state has a
+non-empty action list there (`cellsHaveActions`, decidable, evaluated on every real dump). -/
+theorem lookahead_yields_have_actions (L : Lang) (tbl : C03.Table) (hwf : tableWF L = true)
+    (hc : cellsHaveActions L tbl = true) (s : Nat) (hs : s < L.stateCount) (a : Nat)
+    (ha : a ∈ lookaheadSyms L s) (hat : a < L.tokenCount) : tbl.actions s a ≠ [] := by
+  have h1 := ((lookahead_enumerates L hwf s hs).2 a).1 ha
+  unfold cellsHaveActions at hc
+  have h2 := (List.all_eq_true.1 ((List.all_eq_true.1 hc) s (List.mem_range.2 hs))) a (List.mem_range.2 hat)
+  simp only [Bool.or_eq_true, beq_iff_eq, Bool.not_eq_true', List.isEmpty_eq_false_iff] at h2
+  rcases h2 with h2 | h2
+  · exact absurd h2 h1.2
+  · exact h2
 
 /-- once `next` has returned false it keeps returning false and the iterator no longer moves. -/
 theorem lookahead_done_stays (L : Lang) (it : Iter) (h : (next L it).1 = false) :
@@ -442,6 +519,38 @@ example : ¬ Conforms msWitNT (.node ⟨"msrec_stmt", true⟩ false []
   fun h => by
     have := (conforms_iff msWitNT _).2 h
     revert this; decide
+
+/-- `kinds_listed_sound`: "each node type is listed" on the level of the LANGUAGE, not of sampled
+trees — when the decidable `kindsListed` holds for a symbol table and the entries of a node-types file
+(evaluated on every real pair), every symbol a node can carry (visible; inlined rule names excepted,
+they never become nodes) has an entry of its (kind, named), and every supertype symbol a supertype entry. -/
+theorem kinds_listed_sound (T : SymTab) (inl : List (List Nat)) (entries : List (List Nat × Bool × Bool))
+    (h : kindsListed T inl entries = true) (s : SymInfo) (hs : s ∈ T.syms) :
+    (s.visible = true → s.name ∉ inl → ∃ e ∈ entries, e.1 = s.name ∧ e.2.1 = s.named ∧ e.2.2 = false) ∧
+    (s.supertype = true → s.visible = false → ∃ e ∈ entries, e.1 = s.name ∧ e.2.2 = true) := by
+  unfold kindsListed at h
+  have h1 := (List.all_eq_true.1 h) s hs
+  simp only [Bool.and_eq_true, Bool.or_eq_true, Bool.not_eq_true', Bool.and_eq_false_imp, List.any_eq_true,
+    beq_iff_eq, Bool.not_eq_false'] at h1
+  constructor
+  · intro hv hn
+    rcases h1.1 with h2 | ⟨e, he, h3⟩
+    · have := h2 hv
+      simp only [Bool.not_eq_false', List.contains_iff_mem] at this
+      exact absurd this hn
+    · exact ⟨e, he, h3.1.1, h3.1.2, h3.2⟩
+  · intro hsup hv
+    rcases h1.2 with h2 | ⟨e, he, h3⟩
+    · have := h2 hsup
+      rw [hv] at this; cases this
+    · exact ⟨e, he, h3.1, h3.2⟩
+
+/-- `symbol_type_flags`: what the port of `ts_language_symbol_type` answers to the bindings' three
+questions, in terms of the table's metadata (compared with the real function for every id: `corr_symtype`) -/
+theorem symbol_type_flags (s : SymInfo) :
+    kindFlags s = (s.visible, s.named && s.visible, s.supertype && !s.visible) := by
+  cases s with
+  | mk n v nm sup p => cases v <;> cases nm <;> cases sup <;> rfl
 
 /-! ### non-vacuity of `derive_sound_partial` -/
 namespace Derive
